@@ -28,7 +28,7 @@ use vh::gsupport::{ev, take_events};
 
 def key(s):
     return "/".join([s["recv"], ",".join(s["params"]) or "-", s["form"], f"{s['pos']}of{s['n']}" + ("+static" if s.get("static_first") else ""),
-                     s["asy"], s["mode"], "provided" if s.get("dflt") else "required"] + (["provided-sibling"] if s.get("sib") else []))
+                     s["asy"], s["mode"], "provided" if s.get("dflt") else "required"] + (["provided-sibling"] if s.get("sib") else []) + (["after-another-failure"] if s.get("prior") else []))
 
 
 def self_ty(recv):
@@ -131,12 +131,22 @@ def render(idx, s):
     call = f"<Unimock as Tr>::f({self_expr}{', ' if args else ''}{args})"
     if asy == "async_fn":
         call = f"vh::gsupport::block_on({call})"
+    prior = ""
+    if s.get("prior"):
+        # an earlier, unrelated mock error on the same mock (caught): the next error is still about its own call
+        uref = "&*u" if recv in ("rc", "arc") else "&u"
+        prior = f"""let first = vh::obs::catch(|| <Unimock as Tr>::g0({uref}, 1));
+        if !matches!(&first, Err(msg) if msg.contains("Tr::g0(1)")) {{
+            return Err(format!("harness: the preparatory failing call gave {{first:?}}"));
+        }}
+        let _ = take_events();"""
     if form == "none":
         expect = rs_str("Tr::f cannot be unmocked as there is no function available to call.")
         body = f"""
         let _ = take_events();
         {holder}
         {setups}
+        {prior}
         let r = vh::obs::catch(|| {call});
         // the instance may have been consumed; whatever is left is dropped quietly
         let events = take_events();
@@ -244,6 +254,9 @@ def shapes(tier):
         if tier == "quick" and asy == "async_fn" and recv not in ("ref", "mut"):
             continue
         out.append(dict(recv=recv, params=["u8"], form=form, n=2, pos=1, asy=asy, mode=mode, sib=True))
+    # the error of an unmock without registered function, raised after another (caught) mock error
+    for recv in RECVS:
+        out.append(dict(recv=recv, params=["u8"], form="none", n=2, pos=1, asy="sync", mode="strict", prior=True))
     return out
 
 
